@@ -792,7 +792,13 @@ impl KotoVm {
                     self.execution_state = ExecutionState::Suspended;
                     return Ok(value);
                 }
-                Err(error) => match self.pop_call_stack_on_error(error.clone(), true) {
+                // A timeout that was detected in a nested execution (a callback run by a native
+                // function, an overridden operator, a generator, ...) arrives here as an ordinary
+                // error; it has to stay uncatchable in the enclosing execution as well.
+                Err(error) => match self.pop_call_stack_on_error(
+                    error.clone(),
+                    !matches!(error.error, ErrorKind::Timeout(_)),
+                ) {
                     Ok((recover_register, ip)) => {
                         let catch_value = match error.error {
                             ErrorKind::KotoError { thrown_value, .. } => thrown_value,
@@ -1351,6 +1357,10 @@ impl KotoVm {
                             }
                         }
                         Some(KIteratorOutput::Error(error)) => {
+                            // Keep the error kind of a timeout so that it stays uncatchable
+                            if matches!(error.error, ErrorKind::Timeout(_)) {
+                                return Err(error);
+                            }
                             return runtime_error!(error.to_string());
                         }
                         None => None,
